@@ -88,6 +88,24 @@ theorem maybeCow_VerWF {v : Variant} {cfg : Cfg} {ver : Ver} {name : Name} (h : 
   unfold maybeCow
   exact ⟨NWF_nins h.nodes hk, h.delegs⟩
 
+theorem putNS_VerWF {v : Variant} {ver1 : Ver} {node0 : Node} {name : Name} {k : RdKey} (h : VerWF ver1)
+    (hk : LC name) : VerWF (putNS v ver1 node0 name k).1 := by
+  unfold putNS
+  split
+  · split
+    · exact updateGlue_VerWF (ver := { ver1 with delegs := dins ver1.delegs name }) ⟨h.nodes, DWF_dins h.delegs hk⟩
+    · exact h
+  · exact h
+
+theorem putFinish_VerWF {v : Variant} {ver2 : Ver} {node1 : Node} {name : Name} {k : RdKey} (h : VerWF ver2)
+    (hk : LC name) : VerWF (putFinish v ver2 node1 name k) := by
+  unfold putFinish
+  split
+  · have h3 : VerWF (updateGlue v { ver2 with delegs := ddel ver2.delegs name } name false) :=
+      updateGlue_VerWF (ver := { ver2 with delegs := ddel ver2.delegs name }) ⟨h.nodes, DWF_ddel h.delegs⟩
+    exact ⟨NWF_nins h3.nodes hk, h3.delegs⟩
+  · exact ⟨NWF_nins h.nodes hk, h.delegs⟩
+
 theorem putRdataset_VerWF {v : Variant} {cfg : Cfg} {ver ver' : Ver} {n : Name} {k : RdKey} (h : VerWF ver)
     (hr : putRdataset v cfg ver n k = .ok ver') : VerWF ver' := by
   unfold putRdataset at hr
@@ -95,37 +113,23 @@ theorem putRdataset_VerWF {v : Variant} {cfg : Cfg} {ver ver' : Ver} {n : Name} 
   · cases hr
   · rename_i name hname
     have hk := vname_LC hname
-    have h1 := maybeCow_VerWF (v := v) (cfg := cfg) h hk
-    generalize maybeCow v cfg ver name = mc at hr h1
-    obtain ⟨ver1, node0⟩ := mc
-    simp only at hr h1
     injection hr with hr
     rw [← hr]
-    -- second stage
-    have h2 : VerWF (if isNS k && !(node0.flags.origin || node0.flags.glue) then
-        (if !dmem ver1.delegs name then
-          (updateGlue v { ver1 with delegs := dins ver1.delegs name } name true,
-            ({ node0 with flags := { node0.flags with deleg := true } } : Node))
-        else (ver1, ({ node0 with flags := { node0.flags with deleg := true } } : Node)))
-      else (ver1, node0)).1 := by
-      split
-      · split
-        · exact updateGlue_VerWF ⟨h1.nodes, DWF_dins h1.delegs hk⟩
-        · exact h1
-      · exact h1
-    generalize (if isNS k && !(node0.flags.origin || node0.flags.glue) then
-        (if !dmem ver1.delegs name then
-          (updateGlue v { ver1 with delegs := dins ver1.delegs name } name true,
-            ({ node0 with flags := { node0.flags with deleg := true } } : Node))
-        else (ver1, ({ node0 with flags := { node0.flags with deleg := true } } : Node)))
-      else (ver1, node0)) = st2 at h2 ⊢
-    obtain ⟨ver2, node1⟩ := st2
-    simp only at h2 ⊢
-    split
-    · have h3 : VerWF (updateGlue v { ver2 with delegs := ddel ver2.delegs name } name false) :=
-        updateGlue_VerWF ⟨h2.nodes, DWF_ddel h2.delegs⟩
-      exact ⟨NWF_nins h3.nodes hk, h3.delegs⟩
-    · exact ⟨NWF_nins h2.nodes hk, h2.delegs⟩
+    exact putFinish_VerWF (putNS_VerWF (maybeCow_VerWF h hk) hk) hk
+
+theorem delNS_VerWF {v : Variant} {ver1 : Ver} {node0 : Node} {name : Name} {k : RdKey} (h : VerWF ver1) :
+    VerWF (delNS v ver1 node0 name k).1 := by
+  unfold delNS
+  split
+  · exact updateGlue_VerWF (ver := { ver1 with delegs := ddel ver1.delegs name }) ⟨h.nodes, DWF_ddel h.delegs⟩
+  · exact h
+
+theorem delFinish_VerWF {ver2 : Ver} {node1 : Node} {name : Name} {k : RdKey} (h : VerWF ver2) (hk : LC name) :
+    VerWF (delFinish ver2 node1 name k) := by
+  unfold delFinish
+  split
+  · exact ⟨NWF_ndel h.nodes, h.delegs⟩
+  · exact ⟨NWF_nins h.nodes hk, h.delegs⟩
 
 theorem deleteRdataset_VerWF {v : Variant} {cfg : Cfg} {ver ver' : Ver} {n : Name} {k : RdKey} (h : VerWF ver)
     (hr : deleteRdataset v cfg ver n k = .ok ver') : VerWF ver' := by
@@ -134,26 +138,9 @@ theorem deleteRdataset_VerWF {v : Variant} {cfg : Cfg} {ver ver' : Ver} {n : Nam
   · cases hr
   · rename_i name hname
     have hk := vname_LC hname
-    have h1 := maybeCow_VerWF (v := v) (cfg := cfg) h hk
-    generalize maybeCow v cfg ver name = mc at hr h1
-    obtain ⟨ver1, node0⟩ := mc
-    simp only at hr h1
-    have h2 : VerWF (if isNS k && dmem ver1.delegs name then
-        (updateGlue v { ver1 with delegs := ddel ver1.delegs name } name false,
-          ({ node0 with flags := { node0.flags with deleg := false } } : Node))
-      else (ver1, node0)).1 := by
-      split
-      · exact updateGlue_VerWF (ver := { ver1 with delegs := ddel ver1.delegs name }) ⟨h1.nodes, DWF_ddel h1.delegs⟩
-      · exact h1
-    generalize (if isNS k && dmem ver1.delegs name then
-        (updateGlue v { ver1 with delegs := ddel ver1.delegs name } name false,
-          ({ node0 with flags := { node0.flags with deleg := false } } : Node))
-      else (ver1, node0)) = st2 at h2 hr
-    obtain ⟨ver2, node1⟩ := st2
-    simp only at h2 hr
-    split at hr
-    · injection hr with hr; rw [← hr]; exact ⟨NWF_ndel h2.nodes, h2.delegs⟩
-    · injection hr with hr; rw [← hr]; exact ⟨NWF_nins h2.nodes hk, h2.delegs⟩
+    injection hr with hr
+    rw [← hr]
+    exact delFinish_VerWF (delNS_VerWF (maybeCow_VerWF h hk)) hk
 
 theorem deleteNode_VerWF {v : Variant} {cfg : Cfg} {ver ver' : Ver} {n : Name} (h : VerWF ver)
     (hr : deleteNode v cfg ver n = .ok ver') : VerWF ver' := by
